@@ -1,4 +1,5 @@
 import HranoModel.Model.Num
+import HranoModel.Facts
 /-
   bufio.Scanner/ScanLines and parser.ParseStreamCallback.
 
@@ -44,13 +45,13 @@ inductive ScanErr where
   | tooLong    -- bufio.ErrTooLong
   deriving DecidableEq, Repr
 
-/-! ### constants of parser.go (checked against the source by tools/facts → Facts.lean) -/
+/-! ### constants of parser.go: taken from `Facts.lean`, which tools/facts regenerates from the source on every run -/
 namespace PConst
-def trimText : List UInt8 := [9, 32, 10, 58, 34, 45]     -- "\t \n:\"-"
-def trimQty  : List UInt8 := [9, 32, 10, 58, 34]         -- "\t \n:\""
-def commentChar : UInt8 := 35                            -- '#'
-def blanks : List UInt8 := [9, 32]                       -- cut set of LastIndexAny "\t "
-def maxToken : Nat := 65536                              -- bufio.MaxScanTokenSize
+def trimText : List UInt8 := Facts.trimText
+def trimQty  : List UInt8 := Facts.trimQty
+def commentChar : UInt8 := Facts.commentChar
+def blanks : List UInt8 := Facts.blanks                  -- cut set of LastIndexAny
+def maxToken : Nat := 65536                              -- bufio.MaxScanTokenSize (standard library)
 end PConst
 
 namespace Scanner
@@ -131,7 +132,7 @@ def classify (cc : UInt8) (line : Bytes) : LineClass :=
     | [] => .skip
     | b0 :: _ =>
       if b0 == cc then .skip
-      else if b0 != 32 && b0 != 9 && b0 != 45 then .heading trimmed
+      else if b0 != Facts.runeSpace && b0 != Facts.runeTab && b0 != Facts.runeArrayItem then .heading trimmed
       else .indented (classifyIndented cc trimmed)
 
 def flush : Option Node → List Event
@@ -182,12 +183,22 @@ where
         | some _, .entryNonFinite _ => true
         | _, _ => go cur ls
 
-/-- error messages of parser/errors.go -/
+inductive FmtArg where
+  | int (n : Nat)
+  | str (s : Bytes)
+
+/-- `fmt.Sprintf` for the verbs `%d`, `%s` and `%%` -/
+def sprintf : Bytes → List FmtArg → Bytes
+  | [], _ => []
+  | 37 :: 100 :: r, .int n :: as => natDigits n ++ sprintf r as
+  | 37 :: 115 :: r, .str t :: as => t ++ sprintf r as
+  | 37 :: 37 :: r, as => 37 :: sprintf r as
+  | c :: r, as => c :: sprintf r as
+
+/-- error messages of parser/errors.go (formats from `Facts.lean`) -/
 def PErr.message : PErr → Bytes
-  | .badSyntax ln raw =>
-    ofString "bad syntax on line " ++ natDigits ln ++ ofString ", \"" ++ raw ++ ofString "\"."
-  | .conversion t ln raw =>
-    ofString "error converting \"" ++ t ++ ofString "\" to float on line " ++ natDigits ln ++ ofString " \"" ++ raw ++ ofString "\"."
+  | .badSyntax ln raw => sprintf Facts.badSyntaxFormat [.int ln, .str raw]
+  | .conversion t ln raw => sprintf Facts.conversionFormat [.str t, .int ln, .str raw]
 
 end Parser
 end Hrano
